@@ -34,6 +34,7 @@ def check(ctx: Ctx, rep: Report):
     rep.rule("C04.R3", "the timeout callback and _close_transport complete a pending future on every path", 6)
     rep.rule("C04.R4", "retry recursion is bounded: guard _retry < retries, one increment, no other writes; exhausted budget returns _max_retries_reached(); one transmission per activation", 8)
     rep.rule("C04.R5", "TCP connect is awaited only under asyncio.wait_for with a constant timeout <= 5 s", 1)
+    rep.rule("C04.R7", "the retry counter is reset from a callback only where the request has ended there (future completed or already done): a reset that precedes a cancellation hands the retry path a fresh budget", 2)
     rep.rule("C04.R6", "the validators the receive callbacks run are total (shared with C01.R4): any other exception leaves the callback after the timer was cancelled, with the future still pending", 12)
     for ci in proto_classes(ctx):
         r1(ctx, rep, ci)
@@ -41,6 +42,8 @@ def check(ctx: Ctx, rep: Report):
         r3(ctx, rep, ci)
         r4(ctx, rep, ci)
     r5(ctx, rep)
+    for ci in proto_classes(ctx):
+        r7(ctx, rep, ci)
     # ---- R6 shared with C01
     from ..framing import families
     from .c01 import r4 as c01_r4
@@ -225,6 +228,34 @@ def r4(ctx, rep, ci):
         ret = p.end == "return" and p.end_node.value is not None and chain(p.end_node.value) == ("self", "response_future")
         rep.check(setexc and ret, "C04.R4", "max-retries-future:%s" % ci.name, mx.loc(), "_max_retries_reached returns an already failed future",
                   bad="_max_retries_reached does not return a future with an exception set: the caller would wait forever")
+
+
+def r7(ctx, rep, ci):
+    """Ranking argument of R4: between the transmissions of one request _retry only grows.  A callback that stores
+    _retry = 0 must, on the same path, have ended the request (set_result / set_exception on the future, or found it
+    done); otherwise the cancellation that follows (_close_transport / timeout) re-enters send_request's retry branch
+    with the counter at 0 and the number of transmissions is no longer bounded by retries + 1."""
+    n = 0
+    for cb in loop_callbacks(ctx, ci):
+        bad = None
+        for p in protocol_paths(ctx, cb):
+            resets = [i for i, ev in enumerate(p.events) if ev.kind == "stmt" and "store:_retry=0" in tags(ev)]
+            if not resets:
+                continue
+            n += 1
+            ended = any((ev.kind == "call" and (tags(ev) & {"fut_set_result", "fut_set_exception"}))
+                        or (ev.kind == "test" and "fut_done" in tags(ev) and ev.data is True)
+                        or (ev.kind == "test" and chain(ev.node) == ("self", "response_future") and ev.data is False)     # nothing pending
+                        or (ev.kind == "raise" and isinstance(ev.node, ast.Call) and (call_chain(ev.node) or ("",))[-1] in ("set_result", "set_exception"))
+                        for ev in p.events)
+            if not ended and bad is None:
+                bad = p
+        if bad is not None or any(any(ev.kind == "stmt" and "store:_retry=0" in tags(ev) for ev in p.events) for p in protocol_paths(ctx, cb)):
+            rep.check(bad is None, "C04.R7", "reset-ends-request:%s" % cb.short, cb.loc(), "%s resets _retry only where it also completes the request" % cb.short,
+                      bad="%s resets self._retry on a path that leaves the request pending [path %s]: the cancellation that follows is retried with a fresh budget, so a peer that keeps answering this way is sent the request without bound" % (
+                          cb.short, bad.describe(8) if bad else ""))
+    if n == 0:
+        raise AnalysisError("%s: no callback path resets _retry" % ci.name)
 
 
 def r5(ctx, rep):
